@@ -25,6 +25,91 @@ def run(chk):
     chk.guard(handle_kernel, chk, it)
     chk.guard(callsite_kernel, chk, it)
     chk.guard(marker_unspendable, chk, it)
+    chk.guard(marker_input_kernel, chk, it)
+
+
+def marker_input_kernel(chk, it):
+    """I-MARK at the call site: check_tx_validity accepts no transaction -- of any kind, faucets included -- one of whose inputs is
+    a coin locked to the all-zero covenant hash (a faucet marker).  MARKER-UNSPENDABLE is validate_tx_scripts in isolation; this is
+    the obligation that every input of every accepted transaction really goes through it."""
+    from mirsym.collections import MapM as _MapM
+    for pos in (0, 1):
+        G.reset()
+        G.atomic_domains = {'single:Transaction'}
+        st = State()
+        state, sterms = B.sym_state(st.pc)
+        B.install_history_invariant(it, sterms['height'])
+        st.pc += [z3.UGE(sterms['height'], 1), z3.ULE(sterms['height'], 100_000_000)]
+        tx, tt = B.sym_tx('tx', 2, 1, 2, st.pc, exclude_kinds=('DoscMint',))
+        st.pc.append(z3.ULE(tt['fee'], 1 << 120))
+        st.pc.append(z3.ULE(tt['out0_value'], 1 << 120))
+        rc = _MapM()
+        tot = z3.BitVecVal(0, 136)
+        for i, cid in enumerate(tx.fields[1].fields):
+            holder = M.State_for_symvalue()
+            cdh = S.sym_value('CoinDataHeight', 'coin%d' % i, holder)
+            st.pc.extend(holder.pc)
+            if i == pos:
+                st.pc.append(B.cdh_covhash(cdh) == 0)
+            rc = rc.insert(cid, cdh)
+            tot = tot + z3.ZeroExt(8, cdh.fields[0].fields[1].fields[0])
+        st.pc.append(z3.ULE(tot, z3.BitVecVal(1 << 127, 136)))
+        c0, c1 = tx.fields[1].fields
+        st.pc.append(z3.Not(M.val_eq(c0, c1)))
+        for c in tx.fields[4].fields:
+            G.add(M.hash_apply(st, 'single:symbytes', [c.data['id']]) != 0)  # A-HASH: no known preimage of the all-zero hash
+        fn = it.by_last['check_tx_validity'][0]
+        outs = it.exec_fn(st, fn, [Ptr(st.alloc(state)), Ptr(st.alloc(tx)), Ptr(st.alloc(Opaque('Map', rc))),
+                                   Ptr(st.alloc(Opaque('Map', _MapM())))])
+        inputs = {'network': sterms['network'], 'kind': tt['kind'], 'marker_position': bv(pos, 8)}
+        n = 0
+        for idx, (s, o) in enumerate(outs):
+            name = 'check_tx_validity/marker-at-%d/%d' % (pos, idx)
+            if isinstance(o, Panic):
+                continue  # panic freedom: C09
+            n += 1
+            chk.obligation('MARKER-NEVER-AN-ACCEPTED-INPUT/' + name, list(s.pc), z3.Not(M.is_variant(o.v, 'Ok')), inputs,
+                           replay=lambda mo, inputs=inputs: replay_marker_spend(chk, mo, inputs),
+                           bound='2 inputs, the marker at either position, every transaction kind except DoscMint')
+        if n == 0:
+            raise Inconclusive('check_tx_validity has no returning path')
+    it.base_read_hooks.pop('history', None)
+
+
+def replay_marker_spend(chk, model, inputs):
+    """faucet F accepted; a transaction of the model's kind (a second faucet G when the kind is Faucet, an ordinary payment
+    otherwise) names F's marker as an input; then F is presented again: it must still be a duplicate"""
+    net = harness.model_int(model, inputs['network'])
+    if net == 0xff:
+        net = 2  # no faucet is accepted on mainnet at all: the marker scenario needs another network
+    kind = harness.model_int(model, inputs['kind'])
+    f = {'name': 'f', 'kind': 0xff, 'inputs': [], 'outputs': [{'covhash': {'covhash_of': 'true'}, 'value': '1000', 'denom': 'MEL', 'adata': ''}],
+         'fee': '0', 'covenants': [], 'data': ''}
+    marker = {'txhash': {'faucet_marker_of': 'f'}, 'index': 0}
+    if kind == 0xff:
+        g = {'name': 'g', 'kind': 0xff, 'inputs': [marker], 'outputs': [{'covhash': {'covhash_of': 'true'}, 'value': '5', 'denom': 'MEL', 'adata': '07'}],
+             'fee': '0', 'covenants': ['true'], 'data': ''}
+    else:
+        g = {'name': 'g', 'kind': kind if kind in (0x00, 0x51, 0x52, 0x53) else 0x00, 'inputs': [{'txhash': {'txhash_of': 'f'}, 'index': 0}, marker],
+             'outputs': [{'covhash': {'covhash_of': 'true'}, 'value': '1000', 'denom': 'MEL', 'adata': '07'}], 'fee': '0', 'covenants': ['true'], 'data': ''}
+    sc = {'kind': 'batch', 'network': net, 'height': 1, 'fee_pool': '0', 'tips': '0', 'fee_multiplier': '0', 'dosc_speed': '1000000',
+          'coins': [], 'probes': [], 'txs': [f, g], 'orders': [[0]], 'steps': [[0], [1], [0], 'seal_next', [0]]}
+    out = harness.run_replay([sc], 'dev')[0]
+    if 'error' in out or 'unrealizable' in out:
+        raise Inconclusive('replay: %s' % str(out)[:300])
+    steps = out['steps']
+    why = []
+    if steps[0].get('result') != 'Ok':
+        raise Inconclusive('replay: the faucet itself was rejected: %s' % steps[0])
+    if steps[1].get('result') == 'Ok':
+        why.append('a transaction naming the faucet marker as an input was accepted')
+    if steps[2].get('result') == 'Ok':
+        why.append('the faucet was accepted a second time in the same block')
+    if len(steps) > 4 and steps[4].get('result') == 'Ok':
+        why.append('the faucet was accepted again in the next block')
+    if any(s_.get('panicked') for s_ in steps):
+        why.append('panic')
+    return bool(why), sc, {'why': why, 'steps': steps}
 
 
 def marker_key(st, txh):
